@@ -1367,7 +1367,7 @@ pub fn run_simple(ctx: &Ctx) -> i32 {
         },
         tropical_routing: matches!(prop, "C09" | "C10" | "C11"),
         points_per_case: match prop {
-            "C10" => tier.pick(1000, 1000),
+            "C10" => tier.pick(600, 1000),
             "C09" => tier.pick(900, 800),
             "C11" => tier.pick(1500, 800),
             _ => tier.pick(1500, 800),
